@@ -210,6 +210,7 @@ func (k *KVStore) PutRaw(hkey uint64, value []byte) error {
 		break
 	}
 
+	k.deleteStaleVersions(hkey)
 	return nil
 }
 
@@ -245,7 +246,18 @@ func (k *KVStore) Put(hkey uint64, value storage.Entry) error {
 		break
 	}
 
+	k.deleteStaleVersions(hkey)
 	return nil
+}
+
+// deleteStaleVersions removes the superseded versions of the given hkey from the
+// older tables. Only the most recent table accepts writes, so a key which lives in
+// an older table would otherwise be kept there after it has been overwritten.
+func (k *KVStore) deleteStaleVersions(hkey uint64) {
+	for i := len(k.tables) - 2; i >= 0; i-- {
+		// Delete returns table.ErrHKeyNotFound if the table doesn't have the hkey.
+		_ = k.tables[i].Delete(hkey)
+	}
 }
 
 // GetRaw extracts encoded value for the given hkey. This is useful for merging tables.
